@@ -9,8 +9,8 @@ python3-vt -u - <<'PY'
 import sys
 sys.path.insert(0, '.')
 from mirsym.world import World
-World(("uplc",))
-print("MIR dump of uplc ok")
+World(("uplc",), deps=("pallas-codec",))
+print("MIR dumps ok")
 PY
 (cd driver && cargo build --offline -j 14 --target-dir "$HERE/.cache/driver-target" 2>&1 | tail -3)
 echo setup done
